@@ -377,6 +377,11 @@ def _check_main(ctx, rep: Report):
 def check(ctx, rep):
     from . import metarules, shared
     _check_main(ctx, rep)
+    from . import metarules, r5rules
+    r5rules.nearest_stop(ctx, rep, "C08.MRO")
+    r5rules.setattr_rules(ctx, rep, "C08.DUNDER", ("forward", "default"))
+    r5rules.mutate_attr_writes(ctx, rep, "C08.WRITE")
+    r5rules.invalidate_no_force(ctx, rep, "C08.INV")
     metarules.inherited_rebuild(ctx, rep, "C08.META")
     metarules.attr_spec_writers(ctx, rep, "C08.SPEC")
     shared.unused_params(ctx, rep, "C08.PARAM", ["spec_classes.types.attr"])
